@@ -209,11 +209,13 @@ def gcmTag (rk : Array Bytes) (nonce aad ct : Bytes) : Bytes :=
   let h := natOfBytes (aesEncryptWith rk (List.replicate 16 0))
   xorBytes (beBytes 16 (ghash h aad ct)) (aesEncryptWith rk (nonce ++ [0, 0, 0, 1]))
 
-/-- AES-128-GCM seal: ciphertext ‖ 16-byte tag -/
-def gcmSeal (key nonce aad msg : Bytes) : Bytes :=
-  let rk := expandKey key
+/-- AES-128-GCM seal with an expanded key: ciphertext ‖ 16-byte tag -/
+def gcmSealWith (rk : Array Bytes) (nonce aad msg : Bytes) : Bytes :=
   let ct := ctr rk nonce 2 msg
   ct ++ gcmTag rk nonce aad ct
+
+/-- AES-128-GCM seal: ciphertext ‖ 16-byte tag -/
+def gcmSeal (key nonce aad msg : Bytes) : Bytes := gcmSealWith (expandKey key) nonce aad msg
 
 def gcmOpen (key nonce aad sealed : Bytes) : Option Bytes :=
   if sealed.length < 16 then none else
